@@ -179,6 +179,11 @@ def gen_inputs(ctx):
                 files.append(os.path.join(root, f))
     for p in sorted(files):
         ins.append(("repo:" + os.path.relpath(p, repo), "file", p, {"stream": "repo"}))
+        # the runtime's .wat.ws files (and malloc.wat) are module FRAGMENTS: wrapped in (module …) they exercise the
+        # printer on the hand-written runtime code (they do not assemble on their own: idempotence + model tie only)
+        src = open(p, "rb").read()
+        if not re.search(rb"\(\s*module\b", src):
+            ins.append(("wrapped:" + os.path.relpath(p, repo), "hex", (b"(module\n" + src + b"\n)\n").hex(), {"stream": "repo-fragment-wrapped"}))
     was = ["waroot/examples/hello/hello.wa", "waroot/examples/brainfuck.wa", "waroot/examples/copy.wa", "waroot/examples/struct.wa",
            "waroot/examples/eq.wa", "waroot/examples/strbytes.wa", "waroot/examples/short-var.wa", "waroot/examples/interface_named.wa"]
     if ctx.tier != "quick":
